@@ -155,10 +155,59 @@ func c12RaceGen(o *out, r *rng, tier string) {
 		}
 		close(stop)
 		wg.Wait()
+		// with the traffic stopped, the mux answers as a mux that went through the same history alone: nothing a
+		// request resolved against an earlier state may outlive the publication of a later one
+		ref := e.newMux()
+		for _, op := range ops {
+			e.apply(ref, op)
+		}
+		want := map[string]map[string]bool{}
+		for _, kv := range strings.Split(e.probe(ref), ",") {
+			k, v, _ := strings.Cut(kv, "=")
+			want[k] = map[string]bool{}
+			for _, a := range strings.Split(v, "+") {
+				want[k][a] = true
+			}
+		}
+		for _, kv := range strings.Split(e.probe(m), ",") {
+			k, v, _ := strings.Cut(kv, "=")
+			for _, a := range strings.Split(v, "+") {
+				if !want[k][a] {
+					// the cheap probe stops after two distinct answers: ask the reference again, without stopping early
+					for i := 0; i < 300 && !want[k][a]; i++ {
+						want[k][e.probeKey(ref, k)] = true
+					}
+				}
+				if !want[k][a] {
+					bad.Add(1)
+					firstBad.CompareAndSwap(nil, fmt.Sprintf("%s -> after the history, with the traffic stopped, probe %s is answered %s; a mux that went through the same history alone answers %v",
+						strings.Join(ops, ","), k, a, want[k]))
+				}
+			}
+		}
 	}
 	fb, _ := firstBad.Load().(string)
 	fmt.Fprintf(os.Stdout, "C12R histories=%d requests=%d bad=%d first=%q\n", n, requests.Load(), bad.Load(), fb)
 	o.emit(fmt.Sprintf("C12R %d", n), fmt.Sprintf("%d %d", requests.Load(), bad.Load()))
+}
+
+// one request for a probe key (g<method id> | h<node>.<verb>)
+func (e *c11Env) probeKey(m *larking.Mux, key string) string {
+	if key[0] == 'g' {
+		id := atoi(key[1:])
+		for _, md := range c11Methods {
+			if md.id == id {
+				return c11GRPC(m, c11FullName(md))
+			}
+		}
+		return "?"
+	}
+	for _, t := range e.targets {
+		if fmt.Sprintf("h%d.%d", t.node, t.verb) == key {
+			return c11HTTP(m, t)
+		}
+	}
+	return "?"
 }
 
 func init() {
